@@ -303,7 +303,7 @@ pub fn run(r: &Run) {
     r.prop("export-matrix", r.tier.pick(300_000, 6_000_000), arb_case, check);
     r.prop("as-loop", r.tier.pick(20_000, 500_000), || (arb_wire_attrs(), prop_oneof![Just(65000u32), Just(65002u32), Just(70000u32), Just(23456u32)], prop_oneof![Just(0u32), Just(65002u32), Just(65000u32), Just(70001u32)]).prop_map(|(attrs, local_asn, confed)| LoopCase { attrs, local_asn, confed }), check_loop);
     r.assume(INBOUND_RULE);
-    r.prop("inbound-session", r.tier.pick(3_000, 100_000), arb_inbound, check_inbound);
+    r.slow(|| r.prop("inbound-session", r.tier.pick(3_000, 100_000), arb_inbound, check_inbound));
 }
 
 pub fn replay(sub: &str, case: &Value) -> Result<CheckResult, String> {
